@@ -77,7 +77,25 @@ type kvDisk struct {
 	ents    []kvEntry // sorted by key, immutable slices (copy on commit)
 	open    bool
 	version uint64 // last commit version
+	// delete markers (key, version of the commit that deleted it): what an incremental
+	// backup has to carry besides the live entries
+	tombs []kvEntry
 }
+
+// apply makes one commit durable: the next version, the live entries and the
+// delete markers.
+func (d *kvDisk) apply(p *pathState, ws []kvWrite) {
+	d.version++
+	d.ents = p.applyWritesV(d.ents, ws, d.version)
+	for _, w := range ws {
+		if w.del {
+			d.tombs = append(d.tombs[:len(d.tombs):len(d.tombs)], kvEntry{key: w.key, ver: d.version, ck: w.ck, cc: w.cc})
+		}
+	}
+}
+
+// reset empties the disk.
+func (d *kvDisk) reset() { d.ents, d.tombs, d.version = nil, nil, 0 }
 
 type kvDB struct {
 	disk   *kvDisk
@@ -145,8 +163,9 @@ func (it *kvIter) recycle() {
 }
 
 type kvItem struct {
-	e  kvEntry
-	it *kvIter // the iterator the item came from (nil for txn.Get items)
+	e   kvEntry
+	it  *kvIter // the iterator the item came from (nil for txn.Get items)
+	del bool    // a delete marker (only a stream's ChooseKey sees those)
 }
 
 type kvSeq struct {
@@ -344,8 +363,7 @@ func (t *kvTxn) commit(p *pathState) {
 	}
 	d := t.db.disk
 	p.sched.yield("kv.commit")
-	d.version++
-	d.ents = p.applyWritesV(d.ents, t.writes, d.version)
+	d.apply(p, t.writes)
 	p.env.effects = append(p.env.effects, effect{kind: "kv", disk: d, writes: t.writes})
 }
 
@@ -496,7 +514,37 @@ func init() {
 	M("DB", "Size", func(fr *frame, args []value) value { return tuple{int64(0), int64(0)} })
 	M("DB", "Backup", func(fr *frame, args []value) value {
 		txnPoint(fr) // the stream reads a snapshot: a scheduling point like a transaction start
-		return kvBackup(fr, db(args[0]), args[1], args[2])
+		return kvBackup(fr, db(args[0]), args[1], args[2], nil)
+	})
+	// DB.NewStream / Stream.Backup: the stream framework behind DB.Backup, with its public knobs.
+	// The Stream is the real struct (its exported fields are assigned by the caller); the model keeps
+	// the database in the unexported db field. Of the knobs, SinceTs (entries up to it are skipped)
+	// and ChooseKey (called with the latest item of every key, delete markers included; false leaves
+	// the key out) decide what is written; NumGo, LogPrefix, Prefix=nil do not.
+	M("DB", "NewStream", func(fr *frame, args []value) value {
+		st := lookupNamed(fr.i.prog, badgerPkg, "Stream")
+		sv := zero(st).(structure)
+		*structField(sv, st, "db") = args[0]
+		*structField(sv, st, "NumGo") = int64(8)
+		var cell value = sv
+		return &cell
+	})
+	M("Stream", "Backup", func(fr *frame, args []value) value {
+		txnPoint(fr)
+		st := lookupNamed(fr.i.prog, badgerPkg, "Stream")
+		sp := args[0].(*value)
+		if sp == nil {
+			panic("runtime error: invalid memory address or nil pointer dereference (*badger.Stream)")
+		}
+		sv := (*sp).(structure)
+		if pf, ok := (*structField(sv, st, "Prefix")).([]value); ok && len(pf) > 0 {
+			panic(unsupported{"badger.Stream with a Prefix"})
+		}
+		since := args[2]
+		if ts := fr.i.path.concInt(*structField(sv, st, "SinceTs"), "Stream.SinceTs"); uint64(ts) > uint64(fr.i.path.concInt(since, "backup since")) {
+			since = uint64(ts)
+		}
+		return kvBackup(fr, db(*structField(sv, st, "db")), args[1], since, *structField(sv, st, "ChooseKey"))
 	})
 	// MaxVersion: the version of the last commit
 	M("DB", "MaxVersion", func(fr *frame, args []value) value {
@@ -788,7 +836,7 @@ func init() {
 		}
 		return int64(0)
 	})
-	M("Item", "IsDeletedOrExpired", func(fr *frame, args []value) value { return false })
+	M("Item", "IsDeletedOrExpired", func(fr *frame, args []value) value { return item(args[0]).del })
 	M("Item", "Version", func(fr *frame, args []value) value { return uint64(1) })
 }
 
@@ -835,20 +883,45 @@ func u64Bytes(n uint64) []value {
 // counter. Contract: every committed entry with version > since is written;
 // the returned value is the highest version. The model has one version per
 // commit effect.
-func kvBackup(fr *frame, d *kvDB, w value, since value) value {
+func kvBackup(fr *frame, d *kvDB, w value, since value, choose value) value {
 	p := fr.i.path
 	sinceV := uint64(p.concInt(since, "backup since"))
-	var ents []kvEntry
+	var ents, tombs []kvEntry
 	maxVer := uint64(0)
+	chosen := func(e kvEntry, del bool) bool {
+		if choose == nil {
+			return true
+		}
+		if c, ok := choose.(*closure); ok && c == nil {
+			return true
+		}
+		return p.concBool(call(fr.i, fr, token.NoPos, choose, []value{box(&kvItem{e: e, del: del})}))
+	}
 	for _, e := range d.disk.ents {
-		if e.ver > sinceV {
+		if e.ver > sinceV && chosen(e, false) {
 			ents = append(ents, e)
 			if e.ver > maxVer {
 				maxVer = e.ver
 			}
 		}
 	}
-	payload := &backupPayload{disk: d.disk, ents: ents, since: sinceV, upto: maxVer}
+	// delete markers since the cursor, unless the key has been written again since
+	for _, e := range d.disk.tombs {
+		if e.ver <= sinceV {
+			continue
+		}
+		if _, live := (&kvTxn{db: d, snap: d.disk.ents}).get(p, e.key); live {
+			continue
+		}
+		if !chosen(e, true) {
+			continue
+		}
+		tombs = append(tombs, e)
+		if e.ver > maxVer {
+			maxVer = e.ver
+		}
+	}
+	payload := &backupPayload{disk: d.disk, ents: ents, tombs: tombs, since: sinceV, upto: maxVer}
 	wi := w.(iface)
 	if wi.t == nil {
 		panic("runtime error: invalid memory address or nil pointer dereference (nil writer)")
@@ -857,7 +930,7 @@ func kvBackup(fr *frame, d *kvDB, w value, since value) value {
 		// (*os.File)(nil).Write returns os.ErrInvalid
 		return tuple{uint64(0), iface{errorType, "invalid argument"}}
 	}
-	if len(ents) == 0 {
+	if len(ents)+len(tombs) == 0 {
 		return tuple{uint64(0), iface{}}
 	}
 	// call w.Write(payload)
@@ -882,6 +955,7 @@ func kvBackup(fr *frame, d *kvDB, w value, since value) value {
 type backupPayload struct {
 	disk  *kvDisk
 	ents  []kvEntry
+	tombs []kvEntry
 	since uint64
 	upto  uint64
 }
